@@ -60,3 +60,50 @@ def leanchecker(module):
     with build.Lock("lake"):
         rc, out = build.lake(["env", "leanchecker", module], timeout=3000)
     return rc == 0, out[-1500:]
+
+def closure(modules):
+    """the project's modules that `modules` import, directly or not (leanchecker replays ONE module on top of its imports as loaded,
+    so every module of the closure is replayed on its own)"""
+    seen, todo = [], list(modules)
+    while todo:
+        m = todo.pop()
+        if m in seen or not m.startswith("PotasscoVerif"): continue
+        f = os.path.join(build.LEAN, *m.split(".")) + ".lean"
+        if not os.path.exists(f): continue
+        seen.append(m)
+        with open(f) as fh:
+            for line in fh:
+                mm = re.match(r"\s*import\s+(\S+)", line)
+                if mm: todo.append(mm.group(1))
+    return sorted(seen)
+
+def leanchecker_closure(modules):
+    """replays every module of the import closure with leanchecker; a module whose compiled file was replayed before (same content) is not
+    replayed again (build/leanchk_cache.json).  returns (ok, text, number of modules)."""
+    import hashlib, json
+    from concurrent.futures import ThreadPoolExecutor
+    mods = closure(modules)
+    cache_f = os.path.join(build.BUILD, "leanchk_cache.json")
+    with build.Lock("leanchk"):
+        try:
+            with open(cache_f) as fh: cache = json.load(fh)
+        except Exception: cache = {}
+        def key(m):
+            o = os.path.join(build.LEAN, ".lake", "build", "lib", "lean", *m.split(".")) + ".olean"
+            with open(o, "rb") as fh: return hashlib.sha256(fh.read()).hexdigest()
+        todo = []
+        for m in mods:
+            try: k = key(m)
+            except OSError: return False, "no compiled file for " + m, len(mods)
+            if cache.get(m) != k: todo.append((m, k))
+        def one(mk):
+            rc, out = build.lake(["env", "leanchecker", mk[0]], timeout=3000)
+            return mk, rc, out
+        bad = []
+        with ThreadPoolExecutor(max_workers=4) as ex:
+            for (m, k), rc, out in ex.map(one, todo):
+                if rc == 0: cache[m] = k
+                else: bad.append("%s: %s" % (m, out[-300:]))
+        with open(cache_f + ".tmp", "w") as fh: json.dump(cache, fh)
+        os.replace(cache_f + ".tmp", cache_f)
+    return not bad, "; ".join(bad), len(mods)
